@@ -43,6 +43,7 @@ pub fn batches(prop: &str, tier: &str) -> Vec<(&'static str, u64)> {
         "C01" | "C02" | "C04" | "C07" => vec![("fault-free", t(120_000)), ("faults", t(80_000))],
         "C03" => vec![("fault-free", t(160_000)), ("user-faults", t(40_000))],
         "C10" => vec![("fine", t(100_000))],
+        "C11" => vec![("crash", t(64_000)), ("caught-user-panics", t(100_000))],
         "C18" => vec![("permute", t(60_000)), ("reroute", t(40_000)), ("two-mocks", t(40_000)), ("relabel", t(40_000)), ("mixed", t(40_000))],
         "C16" => vec![("fault-free", t(120_000)), ("faults", t(40_000)), ("executor", t(60_000))],
         "C15" => vec![("fault-free", t(120_000)), ("faults", t(40_000)), ("helper-race", t(40_000))],
@@ -163,6 +164,7 @@ pub fn generate(prop: &str, base_seed: u64, batch: &str, run: u64) -> Scenario {
     match prop {
         "C01" | "C02" | "C03" | "C04" | "C07" => gen_coarse(prop, base_seed, batch, run, &mut rng),
         "C10" => crate::fine::gen_c10(base_seed, batch, run, &mut rng),
+        "C11" => crate::crash::gen_c11(base_seed, batch, run, &mut rng),
         "C18" => crate::twin::gen_c18(base_seed, batch, run, &mut rng),
         "C16" => crate::twin::gen_c16(base_seed, batch, run, &mut rng),
         "C15" => crate::twin::gen_c15(base_seed, batch, run, &mut rng),
@@ -322,6 +324,7 @@ pub fn check_in_process(scn: &Scenario) -> Checked {
     match scn.prop.as_str() {
         "C01" | "C02" | "C03" | "C04" | "C07" => check_coarse(scn),
         "C10" => crate::fine::check_c10(scn),
+        "C11" => crate::crash::check_c11(scn),
         "C18" => crate::twin::check_c18(scn),
         "C16" => crate::twin::check_c16(scn),
         "C15" => crate::twin::check_c15(scn),
